@@ -129,7 +129,7 @@ def run(pid, tier, seed, chk):
         with chk.Lock('lean'):
             emit_lean(cfgs, os.path.join(chk.LEAN, 'Binson', 'Generated', 'Static.lean'))
             ok, msg = chk.regenerate()
-            obligations, discharged, details, pb = chk.audit(pid, scratch)
+            obligations, discharged, details, pb = chk.audit(pid, scratch, tier)
             broken += pb
         nviol = 0; rc = 0
         for v in viols[:6]:
